@@ -392,10 +392,48 @@ class Helper:
                 return False
         if self.is_method and (not self.params or self.params[0] != "self"):
             return False
-        # returns: only bare ones, and those were folded into if/else
+        # returns: only bare ones, and those were folded into if/else ...
+        self.gen_return_is_break = False
         if any(isinstance(x, ast.Return) for st in self.body
                for x in ast.walk(st)):
-            return False
+            # ... or the generator is one loop whose last statement yields:
+            # a bare return inside it ends the stream, which for the
+            # consumer is leaving that loop
+            body = [b for b in self.body]
+            if len(body) != 1 or not isinstance(body[0], ast.For) or \
+                    body[0].orelse:
+                return False
+            lp = body[0]
+            last = lp.body[-1] if lp.body else None
+            if not (isinstance(last, ast.Expr) and isinstance(
+                    last.value, ast.Yield)):
+                return False
+            n_y = sum(1 for x in ast.walk(lp) if isinstance(x, ast.Yield))
+            if n_y != 1:
+                return False
+
+            def returns_ok(stmts, in_inner_loop):
+                for st_ in stmts:
+                    if isinstance(st_, ast.Return):
+                        if in_inner_loop or not (
+                                st_.value is None or (isinstance(
+                                    st_.value, ast.Constant)
+                                    and st_.value.value is None)):
+                            return False
+                    elif isinstance(st_, (ast.For, ast.While)):
+                        if not returns_ok(st_.body + st_.orelse, True):
+                            return False
+                    elif isinstance(st_, ast.If):
+                        if not returns_ok(st_.body + st_.orelse,
+                                          in_inner_loop):
+                            return False
+                    elif any(isinstance(x, ast.Return)
+                             for x in ast.walk(st_)):
+                        return False
+                return True
+            if not returns_ok(lp.body, False):
+                return False
+            self.gen_return_is_break = True
         self.gen = True
         self.stmts = (self.body, None)
         return True
@@ -1076,10 +1114,17 @@ class Inliner:
             return None
         prelude, nb, _ret = inst
 
+        ret_break = getattr(h, "gen_return_is_break", False)
+
         class Y(ast.NodeTransformer):
             def visit_Expr(self, node):
                 if isinstance(node.value, ast.Yield):
                     return emit(node.value.value)
+                return node
+
+            def visit_Return(self, node):
+                if ret_break:
+                    return ast.copy_location(ast.Break(), node)
                 return node
 
             def visit_FunctionDef(self, node):
